@@ -184,38 +184,8 @@ theorem sha2_digest_length (c : SHA.Core) (iv : List Nat) (out : Nat) (m : Bytes
   rw [List.length_take, flatMap_length_const (toBE c.wordBytes) c.wordBytes (toBE_length _),
     sha2_hashWords_length]
 
-theorem keccak_round_length (a : List Nat) (rc : Nat) : (SHA3.round a rc).length = 25 := by
-  unfold SHA3.round SHA3.iota
-  have : (SHA3.chi (SHA3.pi (SHA3.rho (SHA3.theta a)))).length = 25 := by
-    simp [SHA3.chi, SHA3.positions]
-  split
-  · rename_i h; rw [h] at this; simp at this
-  · rename_i l ls h; rw [h] at this; simpa using this
-
-theorem keccak_foldl_length : ∀ (l : List Nat) (a : List Nat), a.length = 25 →
-    (l.foldl SHA3.round a).length = 25 := by
-  intro l
-  induction l with
-  | nil => intro a h; exact h
-  | cons x l ih => intro a _; exact ih _ (keccak_round_length a x)
-
-theorem keccakF_length (a : List Nat) : (SHA3.keccakF a).length = 25 := by
-  show (List.foldl SHA3.round (SHA3.round a _) _).length = 25
-  exact keccak_foldl_length _ _ (keccak_round_length _ _)
-
-theorem sha3_state_length : ∀ (blocks : List Bytes) (a : List Nat), a.length = 25 →
-    (blocks.foldl SHA3.absorb a).length = 25 := by
-  intro blocks
-  induction blocks with
-  | nil => intro a h; exact h
-  | cons b bs ih => intro a _; exact ih _ (keccakF_length _)
-
-theorem sha3_length (out : Nat) (h : out ≤ 200) (m : Bytes) : (SHA3.sha3 out m).length = out := by
-  unfold SHA3.sha3
-  simp only [List.length_take]
-  rw [flatMap_length_const (toLE 8) 8 (toLE_length 8),
-    sha3_state_length _ _ (by simp)]
-  omega
+theorem sha3_length (out : Nat) (m : Bytes) : (SHA3.sha3 out m).length = out := by
+  simp [SHA3.sha3, toLE_length]
 
 /-! ### padding -/
 
